@@ -56,14 +56,18 @@ impl ISocketConnection for ScaConnectionIface {
       Err(TrySendError::Full(_)) if self.sndtimeo == Some(Duration::ZERO) => {
         return Err(ZmqError::ResourceLimitReached);
       }
-      Err(TrySendError::Full(returned_fb)) => {
-        let timeout_duration = self.sndtimeo.unwrap_or(Duration::from_secs(30));
-        return match timeout(timeout_duration, self.pipe_sender.send(returned_fb)).await {
+      // SNDTIMEO = -1 (None) waits until there is room; only a positive SNDTIMEO bounds the wait.
+      Err(TrySendError::Full(returned_fb)) => match self.sndtimeo {
+        None => match self.pipe_sender.send(returned_fb).await {
+          Ok(()) => Ok(()),
+          Err(_) => Err(ZmqError::ConnectionClosed),
+        },
+        Some(timeout_duration) => match timeout(timeout_duration, self.pipe_sender.send(returned_fb)).await {
           Ok(Ok(())) => Ok(()),
           Ok(Err(_)) => Err(ZmqError::ConnectionClosed),
           Err(_) => Err(ZmqError::ResourceLimitReached),
-        };
-      }
+        },
+      },
       Err(TrySendError::Sent(_)) => unreachable!(),
     }
   }
@@ -82,14 +86,18 @@ impl ISocketConnection for ScaConnectionIface {
       Err(TrySendError::Full(_)) if self.sndtimeo == Some(Duration::ZERO) => {
         return Err(ZmqError::ResourceLimitReached);
       }
-      Err(TrySendError::Full(returned_msgs)) => {
-        let timeout_duration = self.sndtimeo.unwrap_or(Duration::from_secs(30));
-        return match timeout(timeout_duration, self.pipe_sender.send(returned_msgs)).await {
+      // SNDTIMEO = -1 (None) waits until there is room; only a positive SNDTIMEO bounds the wait.
+      Err(TrySendError::Full(returned_msgs)) => match self.sndtimeo {
+        None => match self.pipe_sender.send(returned_msgs).await {
+          Ok(()) => Ok(()),
+          Err(_) => Err(ZmqError::ConnectionClosed),
+        },
+        Some(timeout_duration) => match timeout(timeout_duration, self.pipe_sender.send(returned_msgs)).await {
           Ok(Ok(())) => Ok(()),
           Ok(Err(_)) => Err(ZmqError::ConnectionClosed),
           Err(_) => Err(ZmqError::ResourceLimitReached),
-        };
-      }
+        },
+      },
       Err(TrySendError::Sent(_)) => unreachable!(),
     }
   }
